@@ -2,7 +2,7 @@
    some atom is matched by no centre pattern, or by more than one, the call
    fails" - for every scheme and every molecule graph. *)
 From Coq Require Import List NArith ZArith QArith Arith Bool Lia.
-From PG Require Import Common.Strs Group.GroupName Graph.Mol Graph.Match Graph.Scheme Graph.Scheme_proofs.
+From PG Require Import Common.Strs Group.GroupName Graph.Mol Graph.Match Graph.Match_proofs Graph.Scheme Graph.Scheme_proofs.
 Import ListNotations.
 Local Close Scope Q_scope.
 
@@ -240,4 +240,104 @@ Proof.
   apply Forall_forall. intros y Hy. apply distinct_sets_sub in Hy.
   destruct (same_set z y) eqn:S; [|reflexivity]. exfalso.
   assert (existsb (same_set z) l = true) by (apply existsb_exists; exists y; auto). congruence.
+Qed.
+
+Lemma filter_nil_all_ {A} (f : A -> bool) l : (forall x, In x l -> f x = false) -> filter f l = [].
+Proof. induction l as [|x l IH]; intros H; simpl; auto. rewrite (H x) by (left; reflexivity). apply IH. intros y Hy. apply H. right. exact Hy. Qed.
+
+(* ---------- conversely: every atom hit exactly once => the centres are assigned ---------- *)
+Lemma set_name_ok l : forall i v, nth_error l i = Some None -> exists l', set_name l i v = Some l'.
+Proof.
+  induction l as [|x l IH]; intros i v H; [destruct i; discriminate|].
+  destruct i as [|i]; simpl in *.
+  - inversion H; subst. eauto.
+  - destruct (IH i v H) as [l' E]. rewrite E. destruct x; eauto.
+Qed.
+
+Lemma fold_set_names_ok v : forall (cs : list nat) (l : names), NoDup cs ->
+  (forall c, In c cs -> nth_error l c = Some None) ->
+  exists l', fold_left (fun acc c => match acc with Some x => set_name x c v | None => None end) cs (Some l) = Some l'.
+Proof.
+  induction cs as [|c cs IH]; intros l Hn H; simpl; [eauto|].
+  inversion Hn as [|? ? Hc Hn']; subst.
+  destruct (set_name_ok l c v (H c (or_introl eq_refl))) as [l1 E]. rewrite E.
+  apply IH; [exact Hn'|]. intros x Hx. rewrite (set_name_other _ _ _ _ x E); [apply H; right; exact Hx|].
+  intros ->. contradiction.
+Qed.
+
+Lemma assign_all_ok m : forall ps (nm : names),
+  (forall a, match nth_error nm a with
+             | Some (Some _) => hit_list m ps a = []
+             | Some None => (length (hit_list m ps a) <= 1)%nat
+             | None => hit_list m ps a = []
+             end) ->
+  exists nm', fold_left (fun acc p => match acc with Some l => assign_pattern m l p | None => None end) ps (Some nm) = Some nm'.
+Proof.
+  induction ps as [|p ps IH]; intros nm H; simpl; [eauto|].
+  assert (Hp : exists nm1, assign_pattern m nm p = Some nm1).
+  { unfold assign_pattern. fold (firsts m p). apply fold_set_names_ok; [apply dedup_NoDup|].
+    intros c Hc. assert (Hh : hits m p c = true) by (apply mem_nat_In; exact Hc).
+    specialize (H c). unfold hit_list in H. simpl in H. rewrite Hh in H.
+    destruct (nth_error nm c) as [[v|]|]; [discriminate|reflexivity|discriminate]. }
+  destruct Hp as [nm1 E]. rewrite E. apply IH. intros a.
+  destruct (assign_pattern_spec m nm p nm1 E) as [A B]. specialize (H a). unfold hit_list in H. simpl in H. fold (hit_list m ps a) in H.
+  destruct (hits m p a) eqn:Hh.
+  - destruct (A a Hh) as [A1 A2]. rewrite A2. rewrite A1 in H. simpl in H. destruct (hit_list m ps a); [reflexivity|simpl in H; lia].
+  - rewrite (B a Hh). exact H.
+Qed.
+
+(* first atoms of matches are atoms of the molecule *)
+Lemma firsts_lt m p c : In c (firsts m p) -> (c < natom m)%nat.
+Proof.
+  unfold firsts. rewrite dedup_In. intros H. apply in_flat_map in H. destruct H as (img & Himg & Hc).
+  destruct img as [|x r]; [destruct Hc|]. destruct Hc as [<-|[]].
+  destruct (matches_sound _ _ _ Himg) as (_ & _ & Pl & _).
+  destruct (placed_atoms_ok _ _ _ _ Pl 0 x eq_refl) as (q & a & _ & Ha & _).
+  eapply atom_at_lt; eauto.
+Qed.
+
+Theorem assign_centres_complete sch m :
+  (forall a, (a < natom m)%nat -> length (hit_list m (s_patterns sch) a) = 1%nat) ->
+  exists nm, assign_centres sch m = SOk nm.
+Proof.
+  intros H. unfold assign_centres.
+  assert (Hr : forall a, nth_error (repeat (@None (str * str)) (natom m)) a = if Nat.ltb a (natom m) then Some None else None).
+  { generalize (natom m). intros n a. revert a. induction n as [|n IHn]; intros a; [destruct a; reflexivity|].
+    destruct a; simpl; [reflexivity|]. rewrite IHn. reflexivity. }
+  destruct (assign_all_ok m (s_patterns sch) (repeat None (natom m))) as [l E].
+  { intros a. rewrite Hr. destruct (Nat.ltb_spec a (natom m)) as [L|G].
+    - rewrite (H a L). lia.
+    - unfold hit_list. apply filter_nil_all_. intros p _. unfold hits.
+      destruct (mem_nat a (firsts m p)) eqn:Em; [|reflexivity]. apply mem_nat_In in Em. apply firsts_lt in Em. lia. }
+  match goal with |- context [fold_left ?f (s_patterns sch) ?i] => replace (fold_left f (s_patterns sch) i) with (Some l) by (symmetry; exact E) end.
+  assert (F : forallb (fun o : option (str * str) => match o with Some _ => true | None => false end) l = true).
+  { apply forallb_forall. intros o Ho. apply In_nth_error in Ho. destruct Ho as [a Ha].
+    pose proof (assign_all m _ _ _ E a) as G. rewrite Hr in G.
+    destruct (Nat.ltb_spec a (natom m)) as [L|G'].
+    - specialize (H a L). destruct (hit_list m (s_patterns sch) a) as [|p [|q r]]; simpl in H; try lia. rewrite G in Ha. inversion Ha; reflexivity.
+    - (* beyond the atoms: the list has exactly natom entries *)
+      exfalso. assert (length l = natom m).
+      { clear -E. assert (G : forall ps (nm nm' : names), fold_left (fun acc p => match acc with Some l => assign_pattern m l p | None => None end) ps (Some nm) = Some nm' -> length nm' = length nm).
+        { induction ps as [|p ps IH]; intros nm nm' H; simpl in H; [inversion H; reflexivity|].
+          destruct (assign_pattern m nm p) as [nm1|] eqn:E1.
+          - rewrite (IH _ _ H). unfold assign_pattern in E1.
+            clear -E1. revert nm nm1 E1. generalize (dedup (flat_map (fun img => match img with c :: _ => [c] | [] => [] end) (matches (p_frag p) m))).
+            induction l as [|c cs IHc]; intros nm nm1 E1; simpl in E1; [inversion E1; reflexivity|].
+            destruct (set_name nm c (p_center p, p_periph p)) as [x|] eqn:Es.
+            + rewrite (IHc _ _ E1). eapply set_name_length; eauto.
+            + exfalso. clear -E1. induction cs; simpl in E1; [discriminate|auto].
+          - exfalso. clear -H. induction ps; simpl in H; [discriminate|auto]. }
+        rewrite (G _ _ _ E). apply repeat_length. }
+      assert (a < length l)%nat by (apply nth_error_Some; congruence). lia. }
+  rewrite F. eauto.
+Qed.
+
+(* centres are assigned IF AND ONLY IF every atom is hit by exactly one centre pattern *)
+Theorem assign_centres_iff sch m :
+  (exists nm, assign_centres sch m = SOk nm) <->
+  (forall a, (a < natom m)%nat -> length (hit_list m (s_patterns sch) a) = 1%nat).
+Proof.
+  split.
+  - intros [nm E] a Ha. destruct (assign_centres_unique sch m nm E) as [_ G]. destruct (G a Ha) as (p & Hp & _). rewrite Hp. reflexivity.
+  - apply assign_centres_complete.
 Qed.
